@@ -120,6 +120,10 @@ func (g *gen) respell(name string) string {
 	if !g.r.Chance(0.12) {
 		return name
 	}
+	if g.r.Chance(0.25) {
+		// a quoted identifier that names the same directory in another way
+		return []string{"\"" + name + "/\"", "\"./" + name + "\"", "\"" + name + "/.\""}[g.r.Intn(3)]
+	}
 	subst := [][2]string{{"i", "\u0130"}, {"k", "\u212a"}, {"s", "\u017f"}}
 	p := subst[g.r.Intn(3)]
 	if i := strings.Index(name, p[0]); i >= 0 {
@@ -876,6 +880,15 @@ func (g *gen) stmtRaw(db *MDB, t *MTable) Stmt {
 			return fmt.Sprintf("SELECT %s, %s FROM %s ORDER BY %s DESC, %s", col(), col(), t.Name, col(), col())
 		},
 		func() string { return fmt.Sprintf("DELETE FROM %s WHERE nosuch = 1", t.Name) },
+		// the catalog tables are tables too, as far as the parser is concerned
+		func() string {
+			return fmt.Sprintf("INSERT INTO sys_schema VALUES ('%s', 'ghost', %d, 0)", t.Name, g.r.Intn(4))
+		},
+		func() string { return fmt.Sprintf("UPDATE sys_pages SET file_offset = %d", g.r.Intn(9)*4096+g.r.Intn(2)*6) },
+		func() string { return fmt.Sprintf("DELETE FROM sys_pages WHERE table_name = '%s'", t.Name) },
+		func() string { return fmt.Sprintf("UPDATE sys_schema SET field_type = %d WHERE table_name = '%s'", g.r.Intn(9), t.Name) },
+		func() string { return "DELETE FROM sys_schema" },
+		func() string { return fmt.Sprintf("INSERT INTO sys_pages VALUES ('%s', 4096)", t.Name) },
 		func() string { return fmt.Sprintf("DELETE FROM %s WHERE %s %s %s", t.Name, col(), op(), lit()) },
 		func() string {
 			return fmt.Sprintf("DELETE FROM %s WHERE %s %s %s OR %s %s %s", t.Name, col(), op(), lit(), col(), op(), lit())
@@ -1307,7 +1320,11 @@ func (g *gen) genStmts(n int, small bool) []Stmt {
 		case 9:
 			emit(Stmt{Kind: KShowDB})
 		case 10:
-			if g.r.Chance(0.5) {
+			if g.r.Chance(0.2) {
+				// names that are paths: nothing of the kind may be created or selected
+				base := g.m.Order[g.r.Intn(len(g.m.Order))]
+				emit(Stmt{Kind: KCreateDB, DB: []string{"\"" + base + "/sub\"", "\"" + base + "/tbl\"", "\"../x\"", "\"a/b\""}[g.r.Intn(4)]})
+			} else if g.r.Chance(0.5) {
 				emit(Stmt{Kind: KUse, DB: "nosuchdb"})
 			} else {
 				emit(Stmt{Kind: KCreateDB, DB: g.m.Order[g.r.Intn(len(g.m.Order))]})
